@@ -271,7 +271,7 @@ PROPS = {
         ],
     },
     'C16': {
-        'v_units': ['variable', 'varset', 'simplecmd', 'funcall'],
+        'v_units': ['variable', 'varset', 'simplecmd', 'funcall', 'unsetbi'],
         'k_units': [],
         'level': 'proof',
         'explanation': (
@@ -298,7 +298,8 @@ PROPS = {
             'guard assumed); execute_function and execute_external_utility make the assignments of the command, exported, in a volatile context '
             'pushed on top of the caller\'s contexts, the body / utility runs with that context in place, and the contexts afterwards are the '
             'caller\'s ("assignments before a function or utility do not outlive it"). NOT decided: completeness of env_c_strings, ContextGuard, positional parameters, extend_env / init, and '
-            'everything the interpreter does with these operations (which scope a built-in, function or assignment uses).'),
+            'everything the interpreter does with these operations (which scope a built-in, function or assignment uses).'
+            ' Unit unsetbi (Verus, yash-builtin/src/unset/semantics.rs unset_variables, unset_functions): the unset built-in asks the variable store to unset EVERY operand, each exactly once, in order, in the GLOBAL scope (every definition of the name goes away; what VariableSet::unset does with that request, including its refusal for read-only variables, is under contract in unit varset), never touches the functions in variable mode and vice versa, and hands back exactly one error per refused name.'),
         'trusted_base': ['Verus 0.2026.09.13 + Z3', '/verif/tools/vextract.py'],
         'assumptions': [
             'source::Location is an opaque placeholder type',
@@ -310,6 +311,7 @@ PROPS = {
             'a Vec holds at most usize::MAX elements (precondition on the context stack)',
             'the labeled block of get_or_new_impl is checked as a one-pass labeled loop (rewrite rule labeled-block-to-loop)',
             'units simplecmd / funcall: the assignment performer, the function body, the utility starter, perform_redirs and the error handlers are opaque calls observed by ghost monitors; RAII of the context guard (Env::push_context) and of the redirection guard is assumed (external_body contracts); PositionalParams::from_fields is assumed to keep the fields in order; await points dropped',
+            'unit unsetbi: VariableSet::unset / FunctionSet::unset are opaque calls that log the request in ghost state (FunctionSet::unset fails only for a read-only function, whose read_only_location is Some: the unwrap is an obligation); `for name in names` over a slice is a while loop over the index; `let mut errors = Vec::new()` gets a type annotation (the invariant names it before inference); main of unset.rs (parse, dispatch, report) not under contract',
         ],
     },
     'C20': {
